@@ -13,7 +13,20 @@ import (
 
 type Warnings struct {
 	all []string
+
+	// how deeply calls of anonymous functions are nested, and how many there have been, in the evaluation these
+	// warnings belong to
+	callDepth int
+	callCount int
 }
+
+// anonymous functions can call themselves, e.g. ((f) => f(f))((f) => f(f)), and nothing else bounds the recursion.
+// Limiting the depth protects the stack, limiting the total number of calls bounds the time - a function which
+// calls itself twice only 100 deep still makes 2^100 calls.
+const (
+	maxAnonFunctionDepth = 100
+	maxAnonFunctionCalls = 100_000
+)
 
 func (w *Warnings) add(m string) {
 	if !slices.Contains(w.all, m) {
@@ -174,6 +187,18 @@ type AnonFunction struct {
 func (x *AnonFunction) Evaluate(env envs.Environment, scope *Scope, warnings *Warnings) types.XValue {
 	// create an XFunction which wraps our body expression
 	fn := func(env envs.Environment, args ...types.XValue) types.XValue {
+		if warnings != nil {
+			if warnings.callDepth >= maxAnonFunctionDepth {
+				return types.NewXErrorf("anonymous functions can't be nested more than %d calls deep", maxAnonFunctionDepth)
+			}
+			if warnings.callCount >= maxAnonFunctionCalls {
+				return types.NewXErrorf("anonymous functions can't be called more than %d times", maxAnonFunctionCalls)
+			}
+			warnings.callCount++
+			warnings.callDepth++
+			defer func() { warnings.callDepth-- }()
+		}
+
 		// create new context that includes the args
 		argsMap := make(map[string]types.XValue, len(x.Args))
 		for i := range x.Args {
